@@ -18,8 +18,12 @@ import (
 )
 
 type Case struct {
-	S      *Shape `json:"shape"`
-	V      *Val   `json:"value"`
+	S *Shape `json:"shape"`
+	V *Val   `json:"value"`
+	// H: earlier values of the same Go type.  The destination of the second conversion (Reflector.ReflectTo into a
+	// destination the caller already used) holds them one after the other before V is converted into it: the first
+	// by plain assignment, the others by ReflectTo of their wrapped value.
+	H      []*Val `json:"history,omitempty"`
 	Family string `json:"family,omitempty"`
 }
 
@@ -35,8 +39,13 @@ type Obs struct {
 	Back              *Val
 	BackOutside       bool // converted-back value contains something outside the universe of shapes
 	Deep              bool
-	Obj               *ObjObs
-	Ffmt              map[uint64]string
+	// Reflector.ReflectTo(wrapped, dest) where dest already holds the last value of the history H
+	Used                  bool
+	UsedErr, UsedText     string
+	UsedBack              *Val
+	UsedOutside, UsedDeep bool
+	Obj                   *ObjObs
+	Ffmt                  map[uint64]string
 	// the same three steps in a fresh context in which NO struct type was registered: WrapReflectedType derives
 	// anonymous object types from the unnamed struct types (types.go wrapReflectedType, case reflect.Struct)
 	Anon                                  bool
@@ -61,6 +70,34 @@ type ObjObs struct {
 	NewPDeep          bool
 	NewPOutside       bool // converted-back value contains something outside the universe of shapes
 	SingleHash        bool // the positional argument list is one Hash
+	// px.New(type, the first TrimK positional values...): the longest run of trailing optional arguments that equal the
+	// declared default of their attribute is left out (TrimK == len(Attrs): nothing to leave out, not run)
+	Required          int
+	TrimK             int
+	TrimArgs          string
+	NewTErr, NewTText string
+	NewTBack          *Val
+	NewTDeep          bool
+	NewTOutside       bool
+	// the instance constructed from the init hash, converted into a destination that holds an earlier struct
+	NewHUsed                  bool
+	NewHUsedErr, NewHUsedText string
+	NewHUsedBack              *Val
+	NewHUsedDeep              bool
+}
+
+// usedDest makes a settable destination of the type of the case that went through the history cs.H.
+func usedDest(c px.Context, cs *Case) reflect.Value {
+	dest := reflect.New(cs.S.RType()).Elem()
+	for i, h := range cs.H {
+		if i == 0 {
+			dest.Set(Build(cs.S, h))
+			continue
+		}
+		// a failing earlier conversion (the value may belong to a known-finding class) leaves whatever it leaves
+		_, _ = guarded(func() { c.Reflector().ReflectTo(px.Wrap(c, Build(cs.S, h).Interface()), dest) })
+	}
+	return dest
 }
 
 func guarded(f func()) (errc, text string) {
@@ -174,6 +211,14 @@ func runCase(cs *Case) *Obs {
 			back := c.Reflector().Reflect2(w, rt)
 			o.Deep, o.Back, o.BackOutside = deepEqual(cs.S, gv, cs.V, back, env.known)
 		})
+		if len(cs.H) > 0 {
+			o.Used = true
+			o.UsedErr, o.UsedText = guarded(func() {
+				dest := usedDest(c, cs)
+				c.Reflector().ReflectTo(w, dest)
+				o.UsedDeep, o.UsedBack, o.UsedOutside = deepEqual(cs.S, gv, cs.V, dest, env.known)
+			})
+		}
 		// the struct <-> object clause
 		ss := cs.S
 		if ss.K == "ptr" && !cs.V.Nil {
@@ -210,16 +255,43 @@ func runCase(cs *Case) *Obs {
 				back := c.Reflector().Reflect2(o2, rt)
 				ob.NewHDeep, ob.NewHBack, _ = deepEqual(cs.S, gv, cs.V, back, env.known)
 			})
+			if ob.NewHErr == "" && len(cs.H) > 0 {
+				ob.NewHUsed = true
+				ob.NewHUsedErr, ob.NewHUsedText = guarded(func() {
+					dest := usedDest(c, cs)
+					c.Reflector().ReflectTo(px.New(c, ot, ih), dest)
+					ob.NewHUsedDeep, ob.NewHUsedBack, _ = deepEqual(cs.S, gv, cs.V, dest, env.known)
+				})
+			}
 		}
 		if ob.GetsErr == "" {
 			if len(args) == 1 {
 				_, ob.SingleHash = args[0].(px.OrderedMap)
 			}
 			ob.NewPErr, ob.NewPText = guarded(func() {
-				o3 := px.New(c, ot, args...)
+				// the constructor may complete the slice it is given: hand over a copy
+				o3 := px.New(c, ot, append([]px.Value{}, args...)...)
 				back := c.Reflector().Reflect2(o3, rt)
 				ob.NewPDeep, ob.NewPBack, ob.NewPOutside = deepEqual(cs.S, gv, cs.V, back, env.known)
 			})
+			// leave out the trailing optional arguments that equal the declared default of their attribute
+			ob.Required = ot.AttributesInfo().RequiredCount()
+			ob.TrimK = len(args)
+			for ob.TrimK > ob.Required && attrs[ob.TrimK-1].Default(args[ob.TrimK-1]) {
+				ob.TrimK--
+			}
+			cutIsHash := false
+			if ob.TrimK == 1 {
+				_, cutIsHash = args[0].(px.OrderedMap)
+			}
+			if ob.TrimK < len(args) && !cutIsHash {
+				ob.TrimArgs = fmt.Sprint(args[:ob.TrimK])
+				ob.NewTErr, ob.NewTText = guarded(func() {
+					o4 := px.New(c, ot, append([]px.Value{}, args[:ob.TrimK]...)...)
+					back := c.Reflector().Reflect2(o4, rt)
+					ob.NewTDeep, ob.NewTBack, ob.NewTOutside = deepEqual(cs.S, gv, cs.V, back, env.known)
+				})
+			}
 		}
 	})
 	return o
@@ -349,7 +421,7 @@ func keys(m map[string]bool, only ...string) []string {
 // directCheck evaluates the property as stated on the observed outputs of the implementation.
 func directCheck(cs *Case, o *Obs, res *lib.Result) (violated bool) {
 	cl := classesOf(cs)
-	input := map[string]interface{}{"shape": cs.S, "value": cs.V, "go_type": cs.S.String(), "go_value": cs.V.Text(cs.S)}
+	input := map[string]interface{}{"shape": cs.S, "value": cs.V, "history": cs.H, "go_type": cs.S.String(), "go_value": cs.V.Text(cs.S)}
 	viol := func(clause, what string, tags []string) {
 		violated = true
 		res.Violate(lib.Violation{Clause: clause, What: what + "  [" + cs.S.String() + " = " + cs.V.Text(cs.S) + "]", Input: input, Tags: tags})
@@ -375,6 +447,17 @@ func directCheck(cs *Case, o *Obs, res *lib.Result) (violated bool) {
 	}
 	if o.WrapErr != "" {
 		return
+	}
+	// clause 1 observed at Reflector.ReflectTo with a destination that was used before (it holds the last value of
+	// the history): the destination must end up deeply equal to the value that was wrapped, whatever it held
+	if o.Used && !outside {
+		hist := "  [destination went through " + histText(cs) + "]"
+		switch {
+		case o.UsedErr != "":
+			viol("roundtrip", "ReflectTo of the wrapped value into a used destination of the same Go type fails: "+o.UsedErr+" "+o.UsedText+hist, rtTags)
+		case !o.UsedDeep:
+			viol("roundtrip", "ReflectTo into a used destination: the destination is not deeply equal to the value that was wrapped: "+backText(cs.S, o.UsedBack)+hist, rtTags)
+		}
 	}
 	// clause 2: the pcore type derived from the Go type accepts the wrapped value
 	accTags := keys(cl.outer, clsU64, clsNonFinite, clsNilUndef)
@@ -426,6 +509,14 @@ func directCheck(cs *Case, o *Obs, res *lib.Result) (violated bool) {
 				}
 			}
 		}
+		if ob.NewHUsed && !outside {
+			switch {
+			case ob.NewHUsedErr != "":
+				viol("struct-object", "converting the instance constructed from the init hash into a used struct fails: "+ob.NewHUsedErr+" "+ob.NewHUsedText, objTags)
+			case !ob.NewHUsedDeep:
+				viol("struct-object", "the instance constructed from the init hash, converted into a used destination (it held "+histText(cs)+"), gives a different struct: "+backText(cs.S, ob.NewHUsedBack), objTags)
+			}
+		}
 		// A single Hash argument is, by the calling convention of the constructor (objecttype.go: the
 		// named-argument creator comes first), the init hash and not a positional attribute value: such an argument
 		// list is not a positional call, so the positional sub-clause is evaluated on the other argument lists only.
@@ -441,9 +532,25 @@ func directCheck(cs *Case, o *Obs, res *lib.Result) (violated bool) {
 					viol("struct-object", "the instance constructed positionally converts back to a different struct: "+backText(cs.S, ob.NewPBack), posTags)
 				}
 			}
+			if ob.TrimArgs != "" && !outside {
+				switch {
+				case ob.NewTErr != "":
+					viol("struct-object", "constructing from the positional values without the trailing defaults "+ob.TrimArgs+" fails: "+ob.NewTErr+" "+ob.NewTText, posTags)
+				case !ob.NewTDeep:
+					viol("struct-object", "the instance constructed from the positional values without the trailing defaults "+ob.TrimArgs+" converts back to a different struct: "+backText(cs.S, ob.NewTBack), posTags)
+				}
+			}
 		}
 	}
 	return
+}
+
+func histText(cs *Case) string {
+	parts := make([]string, len(cs.H))
+	for i, h := range cs.H {
+		parts[i] = h.Text(cs.S)
+	}
+	return strings.Join(parts, " ; ")
 }
 
 func backText(s *Shape, v *Val) string {
@@ -457,7 +564,11 @@ func backText(s *Shape, v *Val) string {
 
 func (o *Obs) gallina(cs *Case) string {
 	var b strings.Builder
-	b.WriteString("mkCase " + cs.S.Gallina() + "\n     " + cs.V.Gallina(cs.S) + "\n     ")
+	hist := make([]string, len(cs.H))
+	for i, h := range cs.H {
+		hist[i] = h.Gallina(cs.S)
+	}
+	b.WriteString("mkCase " + cs.S.Gallina() + "\n     " + cs.V.Gallina(cs.S) + "\n     " + lib.GList(hist, "gval") + "\n     ")
 	if o.RegErr != "" {
 		// nothing else was observed
 		b.WriteString("(ORegFail " + resTerm(o.RegErr, "tt") + ")")
@@ -465,7 +576,7 @@ func (o *Obs) gallina(cs *Case) string {
 	}
 	b.WriteString("(OSeen " + resTerm(o.TypeErr, o.Type) + " " + resTerm(o.WrapErr, o.Wrapped) + " " + lib.GBool(o.Inst) + " ")
 	if o.WrapErr != "" {
-		b.WriteString("None false None)")
+		b.WriteString("None false None None)")
 		return b.String()
 	}
 	back := "GVOutside"
@@ -473,6 +584,15 @@ func (o *Obs) gallina(cs *Case) string {
 		back = o.Back.Gallina(cs.S)
 	}
 	b.WriteString("(Some " + resTerm(o.BackErr, back) + ") " + lib.GBool(o.Deep) + "\n     ")
+	if o.Used {
+		used := "GVOutside"
+		if o.UsedErr == "" && !o.UsedOutside {
+			used = o.UsedBack.Gallina(cs.S)
+		}
+		b.WriteString("(Some " + resTerm(o.UsedErr, used) + ")\n     ")
+	} else {
+		b.WriteString("None ")
+	}
 	if ob := o.Obj; ob != nil && ob.GetsErr == "" && ob.HashErr == "" {
 		attrs := make([]string, len(ob.Attrs))
 		for i, a := range ob.Attrs {
@@ -485,8 +605,16 @@ func (o *Obs) gallina(cs *Case) string {
 		if ob.NewPErr == "" && ob.NewPBack != nil && !ob.NewPOutside {
 			np = ob.NewPBack.Gallina(cs.S)
 		}
+		nt := "None"
+		if ob.TrimArgs != "" {
+			t := "GVOutside"
+			if ob.NewTErr == "" && ob.NewTBack != nil && !ob.NewTOutside {
+				t = ob.NewTBack.Gallina(cs.S)
+			}
+			nt = "(Some " + resTerm(ob.NewTErr, t) + ")"
+		}
 		b.WriteString("(Some (mkObjObs " + lib.GList(attrs, "str") + " " + lib.GList(ob.Gets, "value") + " " + ob.InitHash + "\n       " +
-			resTerm(ob.NewHErr, nh) + " " + resTerm(ob.NewPErr, np) + ")))")
+			resTerm(ob.NewHErr, nh) + " " + resTerm(ob.NewPErr, np) + " " + fmt.Sprintf("%d%%nat %d%%nat ", ob.Required, ob.TrimK) + nt + ")))")
 	} else {
 		b.WriteString("None)")
 	}
